@@ -234,91 +234,110 @@ func checkC16(p *Prog, res *Result, tier string) {
 		}
 		return "", false
 	}
-	for _, c := range callsIn(txn) {
-		name, ok := isSink(c)
+	inEP := func(f *ssa.Function) bool { return f.Pkg == ep && !lr.shimImpl[f] }
+	isSinkIns := func(ins ssa.Instruction) bool {
+		c, ok := ins.(ssa.CallInstruction)
 		if !ok {
-			continue
+			return false
 		}
-		construct := fmt.Sprintf("%s: %s is guarded by one recogniser", funcName(txn), name)
-		var pos []*ssa.Function
-		for _, cf := range dominatingFacts(c.Block()) {
-			var rc *ssa.Call
-			if cf.X != nil && isNilConst(cf.Y) && ((cf.Op == token.NEQ && cf.Want) || (cf.Op == token.EQL && !cf.Want)) {
-				rc, _ = resolve(cf.X).(*ssa.Call)
-			} else if cf.X == nil && cf.Call == nil && cf.Want {
-				if ex, ok := resolve(cf.Raw).(*ssa.Extract); ok {
-					rc, _ = ex.Tuple.(*ssa.Call)
-				}
-			} else if cf.Call != nil && cf.Want {
-				rc = cf.Call
+		_, s := isSink(c)
+		return s
+	}
+	// classify one branch fact as a (recogniser call, answered-yes?) pair
+	recResult := func(cf condFact) (*ssa.Call, bool, bool) {
+		var rc *ssa.Call
+		yes := false
+		switch {
+		case cf.X != nil && isNilConst(cf.Y):
+			rc, _ = resolve(cf.X).(*ssa.Call)
+			yes = (cf.Op == token.NEQ && cf.Want) || (cf.Op == token.EQL && !cf.Want)
+		case cf.X == nil && cf.Call == nil:
+			if ex, ok := resolve(cf.Raw).(*ssa.Extract); ok {
+				rc, _ = ex.Tuple.(*ssa.Call)
 			}
-			if rc != nil && rc.Common().StaticCallee() != nil && recognisers[rc.Common().StaticCallee()] {
+			yes = cf.Want
+		case cf.Call != nil:
+			rc, yes = cf.Call, cf.Want
+		}
+		if rc == nil || rc.Common().StaticCallee() == nil || !recognisers[rc.Common().StaticCallee()] {
+			return nil, false, false
+		}
+		return rc, yes, true
+	}
+	dispatchers := map[*ssa.Function]bool{}
+	sinkOrd := map[string]int{}
+	for _, ch := range enumerateChains(p, txn, isSinkIns, inEP, 4) {
+		c := ch.target.(ssa.CallInstruction)
+		name, _ := isSink(c)
+		sinkOrd[name]++
+		construct := fmt.Sprintf("%s: %s is guarded by one recogniser", funcName(txn), name)
+		if sinkOrd[name] > 1 {
+			construct += fmt.Sprintf(" (site #%d)", sinkOrd[name])
+		}
+		var pos []*ssa.Function
+		for _, cf := range ch.facts() {
+			if rc, yes, ok := recResult(cf.condFact); ok && yes {
 				pos = append(pos, rc.Common().StaticCallee())
+				dispatchers[rc.Parent()] = true
 			}
 		}
 		if len(pos) == 1 {
 			guards[pos[0]] = append(guards[pos[0]], name)
-			res.ok("C16-R1", construct, p.pos(c.Pos()), "dominated by a positive result of "+funcName(pos[0]))
+			res.ok("C16-R1", construct, p.pos(c.Pos()), "dominated by a positive result of "+funcName(pos[0])+" on "+ch.String())
 		} else {
 			res.bad("C16-R1", construct, p.pos(c.Pos()), fmt.Sprintf("the backend call is dominated by %d positive recogniser results (expected exactly one): a transaction can be executed without having been recognised as this shape", len(pos)))
 		}
 	}
-	// fall-through: a block dominated by the negative results of all recognisers called in Txn
+	// fall-through: in the function that dispatches, a block dominated by the negative results of all recognisers it calls
 	{
-		var recCalls []*ssa.Call
-		for _, c := range callsIn(txn) {
-			if cc, ok := c.(*ssa.Call); ok && cc.Common().StaticCallee() != nil && recognisers[cc.Common().StaticCallee()] {
-				recCalls = append(recCalls, cc)
+		construct := funcName(txn) + ": unrecognised shapes are rejected with an error"
+		var disp *ssa.Function
+		for f := range dispatchers {
+			if disp == nil || funcName(f) < funcName(disp) {
+				disp = f
 			}
 		}
-		construct := funcName(txn) + ": unrecognised shapes are rejected with an error"
 		found := false
-		for _, b := range txn.Blocks {
-			neg := 0
-			for _, cf := range dominatingFacts(b) {
-				var rc *ssa.Call
-				negative := false
-				if cf.X != nil && isNilConst(cf.Y) {
-					rc, _ = resolve(cf.X).(*ssa.Call)
-					negative = (cf.Op == token.EQL && cf.Want) || (cf.Op == token.NEQ && !cf.Want)
-				} else if cf.X == nil && cf.Call == nil {
-					if ex, ok := resolve(cf.Raw).(*ssa.Extract); ok {
-						rc, _ = ex.Tuple.(*ssa.Call)
-					}
-					negative = !cf.Want
-				} else if cf.Call != nil {
-					rc, negative = cf.Call, !cf.Want
+		if disp != nil && len(dispatchers) == 1 {
+			var recCalls []*ssa.Call
+			for _, c := range callsIn(disp) {
+				if cc, ok := c.(*ssa.Call); ok && cc.Common().StaticCallee() != nil && recognisers[cc.Common().StaticCallee()] {
+					recCalls = append(recCalls, cc)
 				}
-				if rc != nil && negative {
-					for _, k := range recCalls {
-						if k == rc {
-							neg++
+			}
+			for _, b := range disp.Blocks {
+				neg := map[*ssa.Call]bool{}
+				for _, cf := range localFacts(b) {
+					if rc, yes, ok := recResult(cf); ok && !yes {
+						neg[rc] = true
+					}
+				}
+				if len(neg) != len(recCalls) || len(recCalls) == 0 {
+					continue
+				}
+				found = true
+				// an error is constructed in the branch and no backend entry is reachable from it
+				hasErr, hasSink := false, false
+				for _, d := range disp.Blocks {
+					if d != b && !b.Dominates(d) {
+						continue
+					}
+					for _, ins := range d.Instrs {
+						if c, ok := ins.(*ssa.Call); ok && isErrorConstructor(c) && d == b {
+							hasErr = true
+						}
+						if d == b && isSinkIns(ins) {
+							hasSink = true
 						}
 					}
 				}
-			}
-			if neg != len(recCalls) || len(recCalls) == 0 {
-				continue
-			}
-			found = true
-			// no sink in blocks dominated by b; an error constructor is produced in b
-			hasErr, hasSink := false, false
-			for _, ins := range b.Instrs {
-				if c, ok := ins.(*ssa.Call); ok && isErrorConstructor(c) {
-					hasErr = true
+				if hasErr && !hasSink {
+					res.ok("C16-R1", construct, p.pos(b.Instrs[0].Pos()), "the branch of "+funcName(disp)+" on which every recogniser answered no builds an error and calls no backend entry")
+				} else {
+					res.bad("C16-R1", construct, p.pos(b.Instrs[0].Pos()), "the fall-through branch of the shape dispatch does not reject the transaction with an error")
 				}
-				if c, ok := ins.(ssa.CallInstruction); ok {
-					if _, s := isSink(c); s {
-						hasSink = true
-					}
-				}
+				break
 			}
-			if hasErr && !hasSink {
-				res.ok("C16-R1", construct, p.pos(b.Instrs[0].Pos()), "the branch on which every recogniser answered no builds an error and calls no backend entry")
-			} else {
-				res.bad("C16-R1", construct, p.pos(b.Instrs[0].Pos()), "the fall-through branch of the shape dispatch does not reject the transaction with an error")
-			}
-			break
 		}
 		if !found {
 			res.bad("C16-R1", construct, p.pos(txn.Pos()), "no fall-through branch for unrecognised shapes found")
@@ -589,13 +608,9 @@ func checkShimShapes(p *Prog, r *Roles, lr *leaderRoles, res *Result) {
 						continue
 					}
 					nResp++
-					sl, ok := resolve(s.Val).(*ssa.Slice)
-					if !ok {
-						problems = append(problems, "Responses is not a literal")
-						continue
-					}
-					arr, ok := sl.X.(*ssa.Alloc)
-					if !ok {
+					arr, why := responseOpsLiteral(s.Val, 0)
+					if arr == nil {
+						problems = append(problems, why)
 						continue
 					}
 					at := arr.Type().(*types.Pointer).Elem().Underlying().(*types.Array)
@@ -646,20 +661,30 @@ func checkShimShapes(p *Prog, r *Roles, lr *leaderRoles, res *Result) {
 		}
 		construct := funcName(f) + ": DELETE events carry PrevKv"
 		found := false
-		for _, b := range f.Blocks {
-			for _, ins := range b.Instrs {
-				st, ok := ins.(*ssa.Store)
-				if !ok {
-					continue
+		scope := []*ssa.Function{f}
+		for i := 0; i < len(scope) && i < 8; i++ {
+			for _, c := range callsIn(scope[i]) {
+				if sc := c.Common().StaticCallee(); sc != nil && sc.Pkg == f.Pkg && sc.Blocks != nil && sc.Signature.Recv() == nil {
+					scope = append(scope, sc)
 				}
-				fa, ok := st.Addr.(*ssa.FieldAddr)
-				if !ok || fieldOf(fa).Name() != "PrevKv" {
-					continue
-				}
-				if c, ok := resolve(st.Val).(*ssa.Call); ok && c.Common().StaticCallee() != nil {
-					if ld, ok := resolve(c.Common().Args[0]).(*ssa.UnOp); ok {
-						if fa2, ok := ld.X.(*ssa.FieldAddr); ok && fieldOf(fa2).Name() == "Kv" {
-							found = true
+			}
+		}
+		for _, g := range scope {
+			for _, b := range g.Blocks {
+				for _, ins := range b.Instrs {
+					st, ok := ins.(*ssa.Store)
+					if !ok {
+						continue
+					}
+					fa, ok := st.Addr.(*ssa.FieldAddr)
+					if !ok || fieldOf(fa).Name() != "PrevKv" {
+						continue
+					}
+					if c, ok := resolve(st.Val).(*ssa.Call); ok && c.Common().StaticCallee() != nil {
+						if ld, ok := resolve(c.Common().Args[0]).(*ssa.UnOp); ok {
+							if fa2, ok := ld.X.(*ssa.FieldAddr); ok && fieldOf(fa2).Name() == "Kv" {
+								found = true
+							}
 						}
 					}
 				}
@@ -671,6 +696,42 @@ func checkShimShapes(p *Prog, r *Roles, lr *leaderRoles, res *Result) {
 			res.bad("C16-R3", construct, p.pos(f.Pos()), "delete events do not carry the previous key-value")
 		}
 	}
+}
+
+// responseOpsLiteral: the backing array of a []*ResponseOp value that is a composite literal, directly or as the
+// single result of a local builder function all of whose returns are the same literal.
+func responseOpsLiteral(v ssa.Value, depth int) (*ssa.Alloc, string) {
+	v = resolve(v)
+	switch x := v.(type) {
+	case *ssa.Slice:
+		if arr, ok := x.X.(*ssa.Alloc); ok {
+			return arr, ""
+		}
+	case *ssa.Call:
+		sc := x.Common().StaticCallee()
+		if sc == nil || sc.Blocks == nil || depth > 2 || sc.Signature.Results().Len() != 1 {
+			break
+		}
+		var arr *ssa.Alloc
+		for _, b := range sc.Blocks {
+			ret, ok := b.Instrs[len(b.Instrs)-1].(*ssa.Return)
+			if !ok || b.Comment == "recover" {
+				continue
+			}
+			a, why := responseOpsLiteral(ret.Results[0], depth+1)
+			if a == nil {
+				return nil, why
+			}
+			if arr != nil && arr != a {
+				return nil, "Responses comes from a builder with several different results"
+			}
+			arr = a
+		}
+		if arr != nil {
+			return arr, ""
+		}
+	}
+	return nil, "Responses is not a literal"
 }
 
 // responseOpKind: the oneof wrapper type stored into the single ResponseOp of the array.
